@@ -2,7 +2,7 @@
    static semantics of Spec/Typing.v, for ARBITRARY trees and tables (no parser involved), plus the
    corollaries for parsed programs that follow from C04's round-trip theorem. *)
 From Coq Require Import PeanoNat Lia.
-From Spl Require Import Spec.Typing Model.Errors Proofs.SemProofs.
+From Spl Require Import Proofs.GrammarProofs Spec.Typing Model.Errors Proofs.SemProofs.
 Local Open Scope nat_scope.
 
 (* ------------------------------------------------------------------------------------------ *)
@@ -1527,10 +1527,7 @@ Qed.
    rule gets exactly the message of that rule, attached at the node the rule names, with that node's
    range; nothing else in the node changes. *)
 
-Definition name_err (i : ident) (m : emsg) : err :=
-  {| e_s := i_e (id_info i) - 1; e_e := i_e (id_info i); e_m := m |}.
-Definition node_err (inf : info) (m : smsg) : err := mkerr_t (info_range inf) (ESem m).
-Definition expr_err (e : expr) (m : smsg) : err := mkerr_t (expr_range e) (ESem m).
+(* name_err / node_err / expr_err: Spec/Typing.v *)
 
 Section Rules.
 Variable L : ltable.
@@ -2030,8 +2027,6 @@ Qed.
    vector whose kinds are the tokens of the abstract program p, comments in any gap), a well-typed
    program gets NO diagnostic from the whole pipeline behind the lexer.  "text is a layout of p" is
    expressed through the lexer: the text lexes to p's token kinds. *)
-From Spl Require Import Proofs.GrammarProofs.
-
 Definition diagnostics (t : text) : outcome (list (N * N * emsg)) :=
   match new_doc t with
   | Done d => doc_errors d
@@ -2049,4 +2044,407 @@ Proof.
   destruct (no_false_positive_tree _ _ (expected_clean p) Hwt) as [Hb [Ha He]].
   unfold diagnostics, new_doc, new_doc_res. rewrite Hlex, (roundtrip p toks Hok Hk), Hb, Ha.
   cbn [ores_outcome]. unfold doc_errors, doc_errors_res. cbn [d_ast d_toks]. rewrite He. reflexivity.
+Qed.
+
+(* ------------------------------------------------------------------------------------------ *)
+(* EXACTLY ONE DIAGNOSTIC for exactly one fault *)
+
+Lemma err_shift_e off x : err_shift off x = shift_e off x.
+Proof. reflexivity. Qed.
+
+Lemma op_type_bin op : op_type op = bin_type op.
+Proof. destruct op; reflexivity. Qed.
+
+Lemma op_type_arith op : op_type op = DInt -> is_arithmetic op = true.
+Proof. destruct op; cbn; congruence. Qed.
+Lemma op_type_cmp op : op_type op = DBool -> is_arithmetic op = false.
+Proof. destruct op; cbn; congruence. Qed.
+
+Ltac split_clean H :=
+  repeat (let H' := fresh H in apply andb_true_iff in H; destruct H as [H H']).
+
+Lemma cl_v v : clean_var v = true -> var_errors v = [].
+Proof. apply clean_var_expr_errors. Qed.
+Lemma cl_e e : clean_expr e = true -> expr_errors e = [].
+Proof. apply clean_var_expr_errors. Qed.
+
+Lemma var_errors_append v x : clean_var v = true -> var_errors (var_append v x) = [x].
+Proof.
+  destruct v as [i | a idx inf]; intros Hc.
+  - cbn [var_append var_errors]. unfold ident_errors. cbn [ident_append id_info info_append i_errs].
+    cbn [clean_var] in Hc. unfold clean_ident in Hc. rewrite (clean_nil _ Hc). reflexivity.
+  - pose proof (cl_v _ Hc) as He. cbn [var_append]. cbn [var_errors] in *. cbn [info_append i_errs].
+    cbn [clean_var] in Hc. split_clean Hc. rewrite (clean_nil _ Hc0) in *. cbn [app] in *. rewrite He. reflexivity.
+Qed.
+
+Lemma expr_errors_append e x : clean_expr e = true -> expr_errors (expr_append e x) = [x].
+Proof.
+  intros Hc. pose proof (cl_e _ Hc) as He.
+  destruct e as [op l r inf | a inf | i | op a inf | v | inf]; cbn [expr_append]; cbn [expr_errors] in *; cbn [info_append i_errs il_info];
+    cbn [clean_expr] in Hc.
+  - split_clean Hc. rewrite (clean_nil _ Hc0) in *. cbn [app] in *. rewrite He. reflexivity.
+  - split_clean Hc. rewrite (clean_nil _ Hc0) in *. cbn [app] in *. rewrite He. reflexivity.
+  - rewrite He. reflexivity.
+  - split_clean Hc. rewrite (clean_nil _ Hc0) in *. cbn [app] in *. rewrite He. reflexivity.
+  - apply var_errors_append, Hc.
+  - discriminate.
+Qed.
+
+Lemma fits_index e o : fits o DInt -> index_result e o = e.
+Proof. intros [-> | ->]; reflexivity. Qed.
+Lemma fits_cond m e o : fits o DBool -> cond_result m e o = e.
+Proof. intros [-> | ->]; reflexivity. Qed.
+Lemma fits_bin op inf o : fits o DInt -> bin_info op inf o (Some DInt) = inf /\ bin_info op inf (Some DInt) o = inf.
+Proof. intros [-> | ->]; split; reflexivity. Qed.
+Lemma fits_un inf o : fits o DInt -> un_info inf o = inf.
+Proof. intros [-> | ->]; reflexivity. Qed.
+
+Section FaultSound.
+Variable L : ltable.
+Variable G : gtable.
+Notation anv := (an_var (Some L) (Some G)).
+Notation ane := (an_expr (Some L) (Some G)).
+Notation ans := (an_stmt (Some L) (Some G)).
+Notation anss := (an_stmts (Some L) (Some G)).
+Notation ana := (an_args (Some L) (Some G)).
+
+Scheme fault_var_mind := Minimality for fault_var Sort Prop
+  with fault_expr_mind := Minimality for fault_expr Sort Prop.
+Combined Scheme fault_mutind from fault_var_mind, fault_expr_mind.
+
+Lemma fault_sound_ve :
+  (forall v x o, fault_var L G v x o -> clean_var v = true -> exists v', anv v = ROk (v', o) /\ var_errors v' = [x]) /\
+  (forall e x o, fault_expr L G e x o -> clean_expr e = true -> exists e', ane e = ROk (e', o) /\ expr_errors e' = [x]).
+Proof.
+  apply fault_mutind.
+  - (* undefined variable *)
+    intros i Hu He Hc. eexists. split; [apply rule_undefined_variable; assumption|].
+    apply (var_errors_append (NamedVar i)), Hc.
+  - intros i e Hb Hn He Hc. eexists. split; [eapply rule_not_a_variable; eassumption|].
+    apply (var_errors_append (NamedVar i)), Hc.
+  - (* indexing a non-array *)
+    intros a e off inf t Ha Hn He Hc. eexists. split; [eapply rule_indexing_non_array; eassumption|].
+    apply (var_errors_append (ArrAccess a (Some (e, off)) inf)), Hc.
+  - (* indexing with a non-integer *)
+    intros a e off inf sz b c t Ha He Hn Hc. eexists. split; [eapply rule_indexing_with_non_integer; eassumption|].
+    cbn [clean_var clean_opt fst] in Hc. split_clean Hc. cbn [var_errors].
+    rewrite (clean_nil _ Hc0), (cl_v _ Hc), (expr_errors_append _ _ Hc1). reflexivity.
+  - (* fault inside the array part *)
+    intros a e off inf x o _ IH Ho He Hc. cbn [clean_var clean_opt fst] in Hc. split_clean Hc.
+    destruct (IH Hc) as [a' [Ha' Hx]]. exists (ArrAccess a' (Some (e, off)) inf). split.
+    + rewrite an_var_access, (an_expr_sound _ _ _ _ He). cbn [rbind]. rewrite Ha'. cbn [rbind index_result].
+      destruct Ho as [-> | [sz [b [c ->]]]]; reflexivity.
+    + cbn [var_errors]. rewrite (clean_nil _ Hc0), Hx, (cl_e _ Hc1). reflexivity.
+  - (* fault inside the index *)
+    intros a e off inf x o sz b c Ha _ IH Ho Hc. cbn [clean_var clean_opt fst] in Hc. split_clean Hc.
+    destruct (IH Hc1) as [e' [He' Hx]]. exists (ArrAccess a (Some (e', off)) inf). split.
+    + rewrite an_var_access, He'. cbn [rbind]. rewrite (an_var_sound _ _ _ _ Ha). cbn [rbind access_result].
+      rewrite (fits_index _ _ Ho). reflexivity.
+    + cbn [var_errors]. rewrite (clean_nil _ Hc0), (cl_v _ Hc), Hx. reflexivity.
+  - (* EVar *)
+    intros v x o _ IH Hc. destruct (IH Hc) as [v' [Hv' Hx]]. exists (EVar v'). split; [|exact Hx].
+    rewrite an_expr_var, Hv'. reflexivity.
+  - (* parentheses *)
+    intros a inf x o _ IH Hc. cbn [clean_expr] in Hc. split_clean Hc. destruct (IH Hc) as [a' [Ha' Hx]].
+    exists (EBrack a' inf). split; [rewrite an_expr_brack, Ha'; reflexivity|].
+    cbn [expr_errors]. rewrite (clean_nil _ Hc0), Hx. reflexivity.
+  - (* fault inside the operand of unary minus *)
+    intros op a inf x o _ IH Ho Hc. cbn [clean_expr] in Hc. split_clean Hc. destruct (IH Hc) as [a' [Ha' Hx]].
+    exists (EUn op a' inf). split; [rewrite an_expr_un, Ha'; cbn [rbind]; rewrite (fits_un _ _ Ho); reflexivity|].
+    cbn [expr_errors]. rewrite (clean_nil _ Hc0), Hx. reflexivity.
+  - (* unary minus on a non-integer *)
+    intros op a inf t Ha Hn Hc. eexists. split; [eapply rule_unary_non_integer; eassumption|].
+    apply (expr_errors_append (EUn op a inf)), Hc.
+  - (* fault in the left operand *)
+    intros op l r inf x o _ IH Ho Hr Hc. cbn [clean_expr] in Hc. split_clean Hc. destruct (IH Hc) as [l' [Hl' Hx]].
+    exists (EBin op l' r inf). split.
+    + rewrite an_expr_bin, Hl'. cbn [rbind]. rewrite (an_expr_sound _ _ _ _ Hr). cbn [rbind].
+      rewrite (proj1 (fits_bin op inf o Ho)), op_type_bin. reflexivity.
+    + cbn [expr_errors]. rewrite (clean_nil _ Hc0), Hx, (cl_e _ Hc1). reflexivity.
+  - (* fault in the right operand *)
+    intros op l r inf x o Hl _ IH Ho Hc. cbn [clean_expr] in Hc. split_clean Hc. destruct (IH Hc1) as [r' [Hr' Hx]].
+    exists (EBin op l r' inf). split.
+    + rewrite an_expr_bin, (an_expr_sound _ _ _ _ Hl). cbn [rbind]. rewrite Hr'. cbn [rbind].
+      rewrite (proj2 (fits_bin op inf o Ho)), op_type_bin. reflexivity.
+    + cbn [expr_errors]. rewrite (clean_nil _ Hc0), Hx, (cl_e _ Hc). reflexivity.
+  - (* operator rules *)
+    intros op l r inf tl tr Hl Hr H Hc. eexists. split; [rewrite op_type_bin; eapply rule_operator_different_types; eassumption|].
+    apply (expr_errors_append (EBin op l r inf)), Hc.
+  - intros op l r inf tl tr Hl Hr H1 H2 Ho Hc. eexists.
+    split; [eapply rule_arithmetic_non_integer; try eassumption; apply op_type_arith, Ho|].
+    apply (expr_errors_append (EBin op l r inf)), Hc.
+  - intros op l r inf tl tr Hl Hr H1 H2 Ho Hc. eexists.
+    split; [eapply rule_comparison_non_integer; try eassumption; apply op_type_cmp, Ho|].
+    apply (expr_errors_append (EBin op l r inf)), Hc.
+Qed.
+
+Lemma fault_var_sound v x o :
+  fault_var L G v x o -> clean_var v = true -> exists v', anv v = ROk (v', o) /\ var_errors v' = [x].
+Proof. apply fault_sound_ve. Qed.
+Lemma fault_expr_sound e x o :
+  fault_expr L G e x o -> clean_expr e = true -> exists e', ane e = ROk (e', o) /\ expr_errors e' = [x].
+Proof. apply fault_sound_ve. Qed.
+
+
+(* lists of statements / arguments with one changed element *)
+Lemma an_stmts_one pre s off post s' :
+  anss pre = ROk pre -> ans s = ROk s' -> anss post = ROk post ->
+  anss (pre ++ (s, off) :: post) = ROk (pre ++ (s', off) :: post).
+Proof.
+  intros Hpre Hs Hpost. induction pre as [|[y oy] pre IH].
+  - cbn [app an_stmts]. rewrite Hs. cbn [rbind]. rewrite Hpost. reflexivity.
+  - cbn [an_stmts] in Hpre. on1 Hpre (ans y). on1 Hpre (anss pre). injection Hpre as -> ->.
+    cbn [app an_stmts]. rewrite E. cbn [rbind]. rewrite (IH E0). reflexivity.
+Qed.
+
+Lemma forallb_app_inv {A} (f : A -> bool) l1 x l2 :
+  forallb f (l1 ++ x :: l2) = true -> forallb f l1 = true /\ f x = true /\ forallb f l2 = true.
+Proof.
+  rewrite forallb_app. cbn [forallb]. intros H. apply andb_true_iff in H. destruct H as [H1 H2].
+  apply andb_true_iff in H2. tauto.
+Qed.
+
+Definition args_errors (args : list (expr * nat)) : list err :=
+  flat_map (fun a => shift_es (snd a) (expr_errors (fst a))) args.
+Definition stmts_errors (l : list (stmt * nat)) : list err :=
+  flat_map (fun x => shift_es (snd x) (stmt_errors (fst x))) l.
+
+Lemma args_errors_clean args : forallb (fun r => clean_expr (fst r)) args = true -> args_errors args = [].
+Proof.
+  intros H. apply flat_map_nil. intros [a off] Hin. rewrite forallb_forall in H. cbn [fst snd].
+  rewrite (cl_e a (H _ Hin)). reflexivity.
+Qed.
+
+Lemma stmts_errors_clean l : forallb (fun r => clean_stmt (fst r)) l = true -> stmts_errors l = [].
+Proof.
+  intros H. apply flat_map_nil. intros [a off] Hin. rewrite forallb_forall in H. cbn [fst snd].
+  rewrite (clean_stmt_errors a (H _ Hin)). reflexivity.
+Qed.
+
+Lemma call_errors name args inf :
+  stmt_errors (SCall name args inf) = i_errs inf ++ ident_errors name ++ args_errors args.
+Proof. reflexivity. Qed.
+
+Lemma call_errors_flagged name args inf x :
+  clean_stmt (SCall name args inf) = true -> stmt_errors (SCall name args (info_append inf x)) = [x].
+Proof.
+  intros Hc. cbn [clean_stmt] in Hc. split_clean Hc. rewrite call_errors. cbn [info_append i_errs].
+  unfold ident_errors. rewrite (clean_nil _ Hc0), (clean_nil _ Hc), (args_errors_clean _ Hc1). reflexivity.
+Qed.
+
+Lemma call_errors_arg name pre a off post inf y :
+  clean_stmt (SCall name (pre ++ (a, off) :: post) inf) = true ->
+  stmt_errors (SCall name (pre ++ (y, off) :: post) inf) = shift_es off (expr_errors y).
+Proof.
+  intros Hc. cbn [clean_stmt] in Hc. split_clean Hc. apply forallb_app_inv in Hc1. destruct Hc1 as [Hpre [_ Hpost]].
+  rewrite call_errors. unfold ident_errors, args_errors. rewrite (clean_nil _ Hc0), (clean_nil _ Hc), flat_map_app.
+  cbn [flat_map fst snd app]. fold (args_errors pre). fold (args_errors post).
+  rewrite (args_errors_clean _ Hpre), (args_errors_clean _ Hpost), app_nil_r. reflexivity.
+Qed.
+
+Lemma assign_errors_flagged v e off inf x :
+  clean_stmt (SAssign v (Some (e, off)) inf) = true -> stmt_errors (SAssign v (Some (e, off)) (info_append inf x)) = [x].
+Proof.
+  intros Hc. cbn [clean_stmt clean_opt fst] in Hc. split_clean Hc. cbn [stmt_errors opt_expr_errors info_append i_errs].
+  rewrite (clean_nil _ Hc0), (cl_v _ Hc), (cl_e _ Hc1). reflexivity.
+Qed.
+
+Lemma else_sound els : wt_else L G els -> an_opt (Some L) (Some G) els = ROk els.
+Proof.
+  destruct els as [[e oe]|]; [|reflexivity]. cbn [wt_else an_opt]. intros H. rewrite (an_stmt_sound _ _ _ H). reflexivity.
+Qed.
+
+Lemma else_errors_clean (els : option (stmt * nat)) :
+  match els with Some r => clean_stmt (fst r) | None => true end = true -> opt_stmt_errors els = [].
+Proof.
+  destruct els as [[e oe]|]; [|reflexivity]. cbn [fst opt_stmt_errors]. intros H. rewrite (clean_stmt_errors _ H). reflexivity.
+Qed.
+
+Lemma shift_es_one off x : shift_es off [x] = [err_shift off x].
+Proof. reflexivity. Qed.
+
+(* a statement with exactly one fault gets exactly one diagnostic: the one the violated rule prescribes *)
+Theorem fault_stmt_sound s x :
+  fault_stmt L G s x -> clean_stmt s = true -> exists s', ans s = ROk s' /\ stmt_errors s' = [x].
+Proof.
+  induction 1 as
+    [ v e off inf tl tr Hv He Hn | v e off inf t Hv He Hn | v e off inf x o Hv Ho He | v e off inf x o Hv He Ho
+    | c oc t ot els inf tc Hc Hn Ht Hels | c oc t ot els inf x o Hc Ho Ht Hels | c oc t ot els inf x Hc Ht IH Hels
+    | c oc t ot e oe inf x Hc Ht He IH
+    | c oc b ob inf tc Hc Hn Hb | c oc b ob inf x o Hc Ho Hb | c oc b ob inf x Hc Hb IH
+    | pre s off post inf x Hpre Hs IH Hpost
+    | name args inf Hu | name args inf e Hb Hn | name args inf pe ppre rest Hb Hp Hr Ha | name pre extra inf pe Hb Hx Ha
+    | name inf pe pre ppre a off p post ppost t t2 Hb Hp Hpre Hpost Ht Hp2 Hn Hr
+    | name inf pe pre ppre a off p post ppost t Hb Hp Hpre Hpost Ht Hp2 Hr Hnv
+    | name inf pe pre ppre a off p post ppost x o Hb Hp Hpre Hpost Ha Ho Hr ]; intros Hcl.
+  - eexists. split; [eapply rule_assignment_different_types; eassumption | apply assign_errors_flagged, Hcl].
+  - eexists. split; [eapply rule_assignment_requires_integers; eassumption | apply assign_errors_flagged, Hcl].
+  - (* fault in the left-hand side *)
+    cbn [clean_stmt clean_opt fst] in Hcl. split_clean Hcl.
+    destruct (fault_var_sound _ _ _ Hv Hcl) as [v' [Hv' Hx]]. exists (SAssign v' (Some (e, off)) inf). split.
+    + rewrite an_stmt_assign, Hv'. cbn [rbind]. rewrite (an_expr_sound _ _ _ _ He). cbn [rbind].
+      destruct Ho as [-> | ->]; reflexivity.
+    + cbn [stmt_errors opt_expr_errors]. rewrite (clean_nil _ Hcl0), Hx, (cl_e _ Hcl1). reflexivity.
+  - (* fault in the right-hand side *)
+    cbn [clean_stmt clean_opt fst] in Hcl. split_clean Hcl.
+    destruct (fault_expr_sound _ _ _ He Hcl1) as [e' [He' Hx]]. exists (SAssign v (Some (e', off)) inf). split.
+    + rewrite an_stmt_assign, (an_var_sound _ _ _ _ Hv). cbn [rbind]. rewrite He'. cbn [rbind].
+      destruct Ho as [-> | ->]; reflexivity.
+    + cbn [stmt_errors opt_expr_errors]. rewrite (clean_nil _ Hcl0), (cl_v _ Hcl), Hx. reflexivity.
+  - (* if: condition not boolean *)
+    cbn [clean_stmt clean_opt fst] in Hcl. split_clean Hcl.
+    exists (SIf (Some (expr_append c (expr_err c IfConditionMustBeBoolean), oc)) (Some (t, ot)) els inf). split.
+    + rewrite an_stmt_if, an_cond_some, (an_expr_sound _ _ _ _ Hc). cbn [rbind an_opt].
+      rewrite (an_stmt_sound _ _ _ Ht). cbn [rbind]. rewrite (else_sound _ Hels), (cond_result_wrong _ _ _ Hn). reflexivity.
+    + rewrite stmt_errors_if. cbn [opt_expr_errors opt_stmt_errors].
+      rewrite (clean_nil _ Hcl0), (expr_errors_append _ _ Hcl), (clean_stmt_errors _ Hcl2), (else_errors_clean _ Hcl1). reflexivity.
+  - (* if: fault inside the condition *)
+    cbn [clean_stmt clean_opt fst] in Hcl. split_clean Hcl.
+    destruct (fault_expr_sound _ _ _ Hc Hcl) as [c' [Hc' Hx]]. exists (SIf (Some (c', oc)) (Some (t, ot)) els inf). split.
+    + rewrite an_stmt_if, an_cond_some, Hc'. cbn [rbind an_opt].
+      rewrite (an_stmt_sound _ _ _ Ht). cbn [rbind]. rewrite (else_sound _ Hels), (fits_cond _ _ _ Ho). reflexivity.
+    + rewrite stmt_errors_if. cbn [opt_expr_errors opt_stmt_errors].
+      rewrite (clean_nil _ Hcl0), Hx, (clean_stmt_errors _ Hcl2), (else_errors_clean _ Hcl1). reflexivity.
+  - (* if: fault inside the then-branch *)
+    cbn [clean_stmt clean_opt fst] in Hcl. split_clean Hcl.
+    destruct (IH Hcl2) as [t' [Ht' Hx]]. exists (SIf (Some (c, oc)) (Some (t', ot)) els inf). split.
+    + rewrite an_stmt_if, an_cond_some, (an_expr_sound _ _ _ _ Hc). cbn [rbind an_opt cond_result].
+      rewrite Ht'. cbn [rbind]. rewrite (else_sound _ Hels). reflexivity.
+    + rewrite stmt_errors_if. cbn [opt_expr_errors opt_stmt_errors].
+      rewrite (clean_nil _ Hcl0), (cl_e _ Hcl), Hx, (else_errors_clean _ Hcl1). reflexivity.
+  - (* if: fault inside the else-branch *)
+    cbn [clean_stmt clean_opt fst] in Hcl. split_clean Hcl.
+    destruct (IH Hcl1) as [e' [He' Hx]]. exists (SIf (Some (c, oc)) (Some (t, ot)) (Some (e', oe)) inf). split.
+    + rewrite an_stmt_if, an_cond_some, (an_expr_sound _ _ _ _ Hc). cbn [rbind an_opt cond_result].
+      rewrite (an_stmt_sound _ _ _ Ht). cbn [rbind]. rewrite He'. reflexivity.
+    + rewrite stmt_errors_if. cbn [opt_expr_errors opt_stmt_errors].
+      rewrite (clean_nil _ Hcl0), (cl_e _ Hcl), (clean_stmt_errors _ Hcl2), Hx. reflexivity.
+  - (* while: condition not boolean *)
+    cbn [clean_stmt clean_opt fst] in Hcl. split_clean Hcl.
+    eexists. split; [eapply rule_while_condition; eassumption|].
+    rewrite stmt_errors_while. cbn [opt_expr_errors opt_stmt_errors].
+    rewrite (clean_nil _ Hcl0), (expr_errors_append _ _ Hcl), (clean_stmt_errors _ Hcl1). reflexivity.
+  - cbn [clean_stmt clean_opt fst] in Hcl. split_clean Hcl.
+    destruct (fault_expr_sound _ _ _ Hc Hcl) as [c' [Hc' Hx]]. exists (SWhile (Some (c', oc)) (Some (b, ob)) inf). split.
+    + rewrite an_stmt_while, an_cond_some, Hc'. cbn [rbind an_opt].
+      rewrite (an_stmt_sound _ _ _ Hb), (fits_cond _ _ _ Ho). reflexivity.
+    + rewrite stmt_errors_while. cbn [opt_expr_errors opt_stmt_errors].
+      rewrite (clean_nil _ Hcl0), Hx, (clean_stmt_errors _ Hcl1). reflexivity.
+  - cbn [clean_stmt clean_opt fst] in Hcl. split_clean Hcl.
+    destruct (IH Hcl1) as [b' [Hb' Hx]]. exists (SWhile (Some (c, oc)) (Some (b', ob)) inf). split.
+    + rewrite an_stmt_while, an_cond_some, (an_expr_sound _ _ _ _ Hc). cbn [rbind an_opt cond_result]. rewrite Hb'. reflexivity.
+    + rewrite stmt_errors_while. cbn [opt_expr_errors opt_stmt_errors].
+      rewrite (clean_nil _ Hcl0), (cl_e _ Hcl), Hx. reflexivity.
+  - (* compound statement *)
+    cbn [clean_stmt] in Hcl. split_clean Hcl. apply forallb_app_inv in Hcl. destruct Hcl as [Hcpre [Hcs Hcpost]]. cbn [fst] in Hcs.
+    destruct (IH Hcs) as [s' [Hs' Hx]]. exists (SBlock (pre ++ (s', off) :: post) inf). split.
+    + rewrite an_stmt_block, (an_stmts_one pre s off post s' (an_stmts_sound _ _ _ Hpre) Hs' (an_stmts_sound _ _ _ Hpost)). reflexivity.
+    + rewrite stmt_errors_block, flat_map_app. cbn [flat_map fst snd]. fold (stmts_errors pre). fold (stmts_errors post).
+      rewrite (clean_nil _ Hcl0), (stmts_errors_clean _ Hcpre), (stmts_errors_clean _ Hcpost), Hx, app_nil_r. reflexivity.
+  - eexists. split; [apply rule_undefined_procedure; assumption | apply call_errors_flagged, Hcl].
+  - eexists. split; [eapply rule_call_of_non_procedure; eassumption | apply call_errors_flagged, Hcl].
+  - eexists. split; [eapply rule_too_few_arguments; eassumption | apply call_errors_flagged, Hcl].
+  - eexists. split; [eapply rule_too_many_arguments; eassumption | apply call_errors_flagged, Hcl].
+  - (* argument type mismatch *)
+    eexists. split; [eapply rule_argument_type_mismatch; eassumption|].
+    rewrite (call_errors_arg _ _ _ _ _ _ _ Hcl).
+    cbn [clean_stmt] in Hcl. split_clean Hcl. apply forallb_app_inv in Hcl1. destruct Hcl1 as [_ [Hca _]]. cbn [fst] in Hca.
+    rewrite (expr_errors_append _ _ Hca). reflexivity.
+  - eexists. split; [eapply rule_argument_must_be_a_variable; eassumption|].
+    rewrite (call_errors_arg _ _ _ _ _ _ _ Hcl).
+    cbn [clean_stmt] in Hcl. split_clean Hcl. apply forallb_app_inv in Hcl1. destruct Hcl1 as [_ [Hca _]]. cbn [fst] in Hca.
+    rewrite (expr_errors_append _ _ Hca). reflexivity.
+  - (* fault inside an argument *)
+    pose proof Hcl as Hcl'. cbn [clean_stmt] in Hcl'. split_clean Hcl'. apply forallb_app_inv in Hcl'1. destruct Hcl'1 as [_ [Hca _]]. cbn [fst] in Hca.
+    destruct (fault_expr_sound _ _ _ Ha Hca) as [a' [Ha' Hx]].
+    exists (SCall name (pre ++ (a', off) :: post) inf). split.
+    + rewrite an_stmt_call. apply lt_lookup_binds in Hb. rewrite Hb, Hp.
+      rewrite (an_args_one L G (id_val name) pre ppre a off p post ppost (fun _ => a') Hpre Hpost).
+      * cbn [rbind]. unfold call_info. rewrite !app_length. cbn [length].
+        rewrite (Forall2_len _ _ _ Hpre), (Forall2_len _ _ _ Hpost), Nat.compare_refl. reflexivity.
+      * intros i. rewrite an_args_cons.
+        assert (Hf : arg_flag_ref (id_val name) i p a = a).
+        { unfold arg_flag_ref. destruct (ve_ref p); [|reflexivity]. destruct (Hr eq_refl) as [v ->]. reflexivity. }
+        rewrite Hf, Ha'. cbn [rbind]. rewrite an_args_nil_l. cbn [rbind]. unfold arg_flag_type.
+        destruct Ho as [-> | ->]; [reflexivity|]. destruct (ve_ty p); [rewrite dt_eqb_refl|]; reflexivity.
+    + rewrite (call_errors_arg _ _ _ _ _ _ _ Hcl), Hx. reflexivity.
+Qed.
+
+End FaultSound.
+
+(* ------------------------------------------------------------------------------------------ *)
+(* whole programs with exactly one semantic fault *)
+
+Lemma analyze_gdecls_one G dpre d d' dpost :
+  analyze_gdecls G dpre = ROk dpre -> analyze_gdecl G d = ROk d' -> analyze_gdecls G dpost = ROk dpost ->
+  analyze_gdecls G (dpre ++ d :: dpost) = ROk (dpre ++ d' :: dpost).
+Proof.
+  intros Hpre Hd Hpost. induction dpre as [|y dpre IH].
+  - cbn [app analyze_gdecls]. rewrite Hd. cbn [rbind]. rewrite Hpost. reflexivity.
+  - cbn [analyze_gdecls] in Hpre. on1 Hpre (analyze_gdecl G y). on1 Hpre (analyze_gdecls G dpre). injection Hpre as -> ->.
+    cbn [app analyze_gdecls]. rewrite E. cbn [rbind]. rewrite (IH E0). reflexivity.
+Qed.
+
+Definition gdecls_errors (l : list (gdecl * nat)) : list err :=
+  flat_map (fun x => shift_es (snd x) (gdecl_errors (fst x))) l.
+
+Lemma gdecls_errors_clean l : forallb (fun r => clean_gdecl (fst r)) l = true -> gdecls_errors l = [].
+Proof.
+  intros H. apply flat_map_nil. intros [a off] Hin. rewrite forallb_forall in H. cbn [fst snd].
+  rewrite (clean_gdecl_errors a (H _ Hin)). reflexivity.
+Qed.
+
+Theorem fault_program_sound p G y :
+  tree_clean p = true -> fault_program p G y ->
+  build_res p = ROk (p, G) /\ exists p', analyze_res p G = ROk p' /\ tree_errors p' = [y].
+Proof.
+  intros Hc [Hwf Hf]. destruct Hf as (dpre & pd & doff & dpost & spre & s & soff & spost & x & Hds & Hpre & Hpost & Hss & Hpe & ->).
+  destruct Hpe as (pe & Hown & Hspre & Hs & Hspost).
+  split; [apply build_sound, Hwf|].
+  unfold tree_clean in Hc. apply andb_true_iff in Hc. destruct Hc as [Hcd Hci]. rewrite Hds in Hcd.
+  apply forallb_app_inv in Hcd. destruct Hcd as [Hcpre [Hcpd Hcpost]]. cbn [fst clean_gdecl] in Hcpd. split_clean Hcpd.
+  rewrite Hss in Hcpd1. apply forallb_app_inv in Hcpd1. destruct Hcpd1 as [Hcspre [Hcs Hcspost]]. cbn [fst] in Hcs.
+  destruct (fault_stmt_sound _ _ _ _ Hs Hcs) as [s' [Hs' Hx]].
+  set (pd' := {| pd_doc := pd_doc pd; pd_name := pd_name pd; pd_params := pd_params pd; pd_vars := pd_vars pd;
+                 pd_stmts := spre ++ (s', soff) :: spost; pd_info := pd_info pd |}).
+  exists {| pg_decls := dpre ++ (GProc pd', doff) :: dpost; pg_info := pg_info p |}. split.
+  - unfold analyze_res. rewrite Hds.
+    rewrite (analyze_gdecls_one G dpre (GProc pd, doff) (GProc pd', doff) dpost
+               (analyze_gdecls_sound _ _ Hpre)); [reflexivity | | apply analyze_gdecls_sound, Hpost].
+    destruct Hown as [name [Hn [Hl Hr]]]. unfold analyze_gdecl. rewrite Hn, Hl.
+    apply range_eqb_eq in Hr. rewrite Hr. cbn [negb]. rewrite Hss.
+    rewrite (an_stmts_one _ _ spre s soff spost s' (an_stmts_sound _ _ _ Hspre) Hs' (an_stmts_sound _ _ _ Hspost)).
+    cbn [rbind]. unfold pd'. rewrite Hn. reflexivity.
+  - unfold tree_errors. cbn [pg_info pg_decls]. rewrite (clean_nil _ Hci). cbn [app]. rewrite flat_map_app. cbn [flat_map fst snd].
+    fold (gdecls_errors dpre). fold (gdecls_errors dpost).
+    rewrite (gdecls_errors_clean _ Hcpre), (gdecls_errors_clean _ Hcpost), app_nil_r. cbn [app gdecl_errors].
+    unfold procdecl_errors. cbn [pd_info pd_name pd_params pd_vars pd_stmts pd'].
+    rewrite (clean_nil _ Hcpd0), (clean_opt_name_errors _ Hcpd). cbn [app].
+    assert (Hpar : flat_map (fun x : paramdecl * nat => shift_es (snd x) (paramdecl_errors (fst x))) (pd_params pd) = []).
+    { match goal with H : forallb _ (pd_params pd) = true |- _ => rename H into Hq end. rewrite forallb_forall in Hq.
+      apply flat_map_nil. intros [q off] Hin. cbn [fst snd]. specialize (Hq _ Hin). cbn [fst] in Hq.
+      destruct q as [doc r name ty inf | inf]; [|discriminate]. cbn [clean_paramdecl paramdecl_errors] in *. split_clean Hq.
+      rewrite (clean_nil _ Hq0), (clean_opt_name_errors _ Hq), (clean_opt_texpr_errors _ Hq1). reflexivity. }
+    assert (Hvar : flat_map (fun x : vardecl * nat => shift_es (snd x) (vardecl_errors (fst x))) (pd_vars pd) = []).
+    { match goal with H : forallb _ (pd_vars pd) = true |- _ => rename H into Hq end. rewrite forallb_forall in Hq.
+      apply flat_map_nil. intros [v off] Hin. cbn [fst snd]. specialize (Hq _ Hin). cbn [fst] in Hq.
+      destruct v as [doc name ty inf | inf]; [|discriminate]. cbn [clean_vardecl vardecl_errors] in *. split_clean Hq.
+      rewrite (clean_nil _ Hq0), (clean_opt_name_errors _ Hq), (clean_opt_texpr_errors _ Hq1). reflexivity. }
+    rewrite Hpar, Hvar. cbn [app]. rewrite flat_map_app. cbn [flat_map fst snd]. fold (stmts_errors spre). fold (stmts_errors spost).
+    rewrite (stmts_errors_clean _ Hcspre), (stmts_errors_clean _ Hcspost), Hx, app_nil_r. cbn [app shift_es map].
+    rewrite shift_e_add. reflexivity.
+Qed.
+
+(* ... and from texts on: every text that lexes to the tokens of an abstract program whose mandated tree has exactly
+   one semantic fault gets exactly one diagnostic: the message of the violated rule, with the byte range of the
+   tokens of the node the rule names *)
+Theorem single_semantic_fault p t G y :
+  prog_ok p = true -> fault_program (expected p) G y ->
+  forall toks, lex t = Some toks -> map tk toks = flatten p ++ [Eof] ->
+  forall r, byte_range toks y = ROk r -> diagnostics t = Done [r].
+Proof.
+  intros Hok Hf toks Hlex Hk r Hr.
+  destruct (fault_program_sound _ _ _ (expected_clean p) Hf) as [Hb [p' [Ha He]]].
+  unfold diagnostics, new_doc, new_doc_res. rewrite Hlex, (roundtrip p toks Hok Hk), Hb, Ha.
+  cbn [ores_outcome]. unfold doc_errors, doc_errors_res. cbn [d_ast d_toks]. rewrite He. cbn [byte_ranges]. rewrite Hr. reflexivity.
 Qed.
